@@ -116,7 +116,8 @@ def edit_torrent(metafile: str, args: dict) -> dict:
         elif isinstance(val, list):
             meta["httpseeds"] = val
 
-    meta["info"] = info
+    meta["info"] = dict(sorted(info.items()))
+    meta = dict(sorted(meta.items()))
     os.remove(metafile)
     pyben.dump(meta, metafile)
     return meta
